@@ -43,11 +43,27 @@ TRUSTED = [
 EXPRS = [("x", "x"), ("y", "y"), ("w", "w"), ("n", "n"), ("s", "s"), ("z", "z"), ("3", "3"), ("x.real", "x.real"),
          ('"q"', '"q"'), ("(+ n 1)", "(n + 1)"), ("(len s)", "len(s)"), ("(get s 0)", "s[0]"), ("[n w]", "[n, w]"),
          ("(.upper s)", "s.upper()"), ("(* w 2)", "(w * 2)"), ("None", "None"), ("-7", "-7"), ("1.5", "1.5"),
-         ("fill", "fill"), ("al", "al"), ("k", "k"), ("ty", "ty")]
+         ("fill", "fill"), ("al", "al"), ("k", "k"), ("ty", "ty"),
+         # nested f-strings with replacement fields of their own (the debugging = must show their whole source text)
+         ('f"{x}"', 'f"{x}"'), ('f"<{n}>"', 'f"<{n}>"'), ('[f"{w}"]', '[f"{w}"]'), ('f"{y}{k}"', 'f"{y}{k}"'),
+         ('f"{w :>{k}}"', 'f"{w:>{k}}"'), ('(+ "<" f"{x}" ">")', '("<" + f"{x}" + ">")')]
+NESTED_FS = [e for e in EXPRS if 'f"' in e[0]]
+# forms that compile to statements, with an effect whose order is visible: (hy text, python text, the expression left
+# in the JoinedStr once hy_compile has hoisted the statements); one for a field's value, one for a field nested in its spec
+STATEFUL_VALUE = ("(do (setv a (next it)) a)", "next(it)", "a")
+STATEFUL_SPEC = ("(do (setv b (next it)) b)", "next(it)", "b")
+COMPILED_AS = {STATEFUL_VALUE[0]: "a", STATEFUL_SPEC[0]: "b"}
 # values used inside format specs: strings, whose repr differs from their str
 SPEC_EXPRS = {"fill": ("fill", "fill"), "align": ("al", "al"), "width": ("k", "k"), "type": ("ty", "ty")}
 ENV = {"x": 3.14159, "y": "h\xe9llo", "w": 8, "n": -42, "s": "a'b\"c", "z": 10 ** 20,
        "fill": "*", "al": "^", "k": 12, "ty": "s"}
+
+
+def env():
+    """a fresh environment per evaluation: `it` is consumed by the stateful forms"""
+    e = dict(ENV)
+    e["it"] = iter([5, 3, 9, 4, 11, 6])
+    return e
 LIT_PLAIN = list("abcXYZ 019_-+.,:;!?@#$%^&*=<>/|()[]'") + ["\xe9", "€", "\U0001F600", "\t", "\n"]
 LIT_ESC = ["\\\\", '\\"', "\\'", "\\n", "\\t", "\\r", "\\a", "\\b", "\\f", "\\v"]
 NAMES = ["BULLET", "LATIN SMALL LETTER A", "EM DASH", "GREEK SMALL LETTER LAMDA", "HYPHEN-MINUS"]
@@ -97,12 +113,12 @@ def gen_lit(rng, maxlen=5):
 
 def gen_field(rng, depth):
     ws = lambda: rng.choice(["", "", " ", "  ", "\n "])
-    hy_t, py_t = rng.choice(EXPRS)
+    hy_t, py_t = rng.choice(NESTED_FS if rng.random() < 0.12 else EXPRS)
     ws1 = ws()
     dbg = conv = None
     hs = False
     spec = []
-    if rng.random() < 0.3 and hy_t == py_t:
+    if rng.random() < (0.6 if 'f"' in hy_t else 0.3) and hy_t == py_t:
         dbg = ws()
     if rng.random() < 0.4:
         conv = (rng.choice("sra"), rng.choice(["", "", " "]))
@@ -140,10 +156,30 @@ def gen_field(rng, depth):
     return ("field", ws1, hy_t, py_t, ws2, dbg, conv, hs, spec)
 
 
+def gen_stateful(rng):
+    """one field whose value and / or a field nested in its spec compile to statements consuming `it`: Python evaluates
+    the value first, then the spec"""
+    lit = lambda t: ("lit", t, t, t)
+    nested = lambda e: ("field", rng.choice(["", " "]), e[0], e[1], "", None, None, False, [])
+    r = rng.random()
+    value = STATEFUL_VALUE if r < 0.8 else rng.choice([("w", "w"), ("k", "k"), ("n", "n")])
+    spec = []
+    if rng.random() < 0.5:
+        spec.append(lit(rng.choice(["*>", "<", "^", "0", ">", "_^"])))
+    spec.append(nested(STATEFUL_SPEC if (r >= 0.8 or rng.random() < 0.8) else ("w", "w")))
+    if rng.random() < 0.3:
+        spec.append(lit(rng.choice(["d", "x", ",", ".1f"])))
+    conv = None
+    return ("field", rng.choice(["", " "]), value[0], value[1], " ", None, conv, True, spec)
+
+
 def gen_fs(rng, depth):
     parts = []
     for _ in range(rng.randrange(0, 5)):
         parts.append(gen_lit(rng) if rng.random() < 0.5 else gen_field(rng, depth))
+    if rng.random() < 0.1:
+        # at most one per f-string: Hy hoists the statements of all fields in front of the whole string
+        parts.insert(rng.randrange(len(parts) + 1), gen_stateful(rng))
     return parts
 
 
@@ -183,6 +219,8 @@ def coq_parts(parts, nd, models):
             _, ws1, hy_t, py_t, ws2, dbg, conv, hs, spec = p
             m = hy.read(hy_t)
             models[pc.ser_model(m)] = norm_py(py_t)
+            if hy_t in COMPILED_AS:
+                models["compiled:" + pc.ser_model(m)] = COMPILED_AS[hy_t]
             out.append("(PField %s %s %s %s %s %s %s [%s])" % (
                 pc.ctext(ws1), pc.coq_model(m, nd), pc.ctext(hy_t), pc.ctext(ws2),
                 "None" if dbg is None else "(Some %s)" % pc.ctext(dbg),
@@ -312,7 +350,7 @@ def run(chk):
     from hy.compiler import hy_compile
     n = 5000 if thorough else 450
     chk.rule = ("f-string trees: 0-4 parts, literal runs over plain characters (incl. non-ASCII, quotes, newlines), simple / hex / "
-                "named escapes and doubled braces; fields over 18 expressions with random whitespace, debugging =, conversions "
+                "named escapes and doubled braces; fields over 28 expressions (incl. nested f-strings with fields of their own, and forms compiling to statements that consume an iterator, in a value and in its spec) with random whitespace, debugging =, conversions "
                 "s r a, format specs with plain text and nested fields to depth 3; + a fixed list of malformed texts; "
                 "non-trivial = distinct Hy text with at least one field")
     rng = chk.rng
@@ -350,6 +388,7 @@ def run(chk):
             chk.count("parts:%d" % len(fs))
             chk.case(hy_text, nontrivial=depth > 0, sample={"hy": hy_text[:100], "python": py_text[:100]} if i % 61 == 2 else None)
             exprmap = lambda e, mp=maps[i]: mp.get(e, "?" + e)
+            compmap = lambda e, mp=maps[i]: mp.get("compiled:" + e, mp.get(e, "?" + e))
             # (1) the Coq rendering is the harness rendering
             if mtext != hy_text:
                 chk.disagree("FString.hy_fstring_text vs the harness rendering", hy_text[:300], mtext[:300], hy_text[:300])
@@ -370,7 +409,7 @@ def run(chk):
                 except Exception as e:
                     icomp = "ERR " + type(e).__name__
                 try:
-                    mc = norm(parse_jnodes(mcomp), exprmap) if mcomp != "?" else "ERR"
+                    mc = norm(parse_jnodes(mcomp), compmap) if mcomp != "?" else "ERR"
                 except Exception as e:
                     mc = "UNPARSED " + mcomp[:80]
                 if mc != icomp:
@@ -393,18 +432,18 @@ def run(chk):
             except (SyntaxError, ValueError):
                 continue
             try:
-                expected = eval(code, dict(ENV))
+                expected = eval(code, env())
             except SyntaxError:
                 continue           # e.g. specs nested deeper than CPython's parser accepts: judged by (3) and (4) only
             except Exception as e:
                 expected = "RAISES " + type(e).__name__
             try:
-                got = hy.eval(hy.read(hy_text), dict(ENV))
+                got = hy.eval(hy.read(hy_text), env())
             except Exception as e:
                 got = "RAISES " + type(e).__name__
             if got != expected:
                 chk.fail("evaluates-differently", {"hy": hy_text, "python": py_text}, repr(got)[:300], repr(expected)[:300],
-                         "hy.eval(hy.read(hy), env) vs eval(python, env), env = %r" % (ENV,))
+                         "hy.eval(hy.read(hy), env) vs eval(python, env), env = %r plus it = iter([5, 3, 9, 4, 11, 6])" % (ENV,))
     # ---- malformed fields and conversions are Hy syntax errors
     for (text, kind), (mread, mcomp) in zip(MALFORMED, mal):
         chk.count("malformed:" + kind)
